@@ -4,3 +4,4 @@ import Cachelito.Basic
 import Cachelito.Core
 import Cachelito.Wrapper
 import Cachelito.System
+import Cachelito.Async
